@@ -21,6 +21,16 @@ def _keep_expected(s):
 def c_type(s, r): s.cd_type = r.choice(["webauthn.get", "webauthn.create ", ""])
 def c_challenge_other(s, r): s.sign_challenge = bytes(x ^ 0x55 for x in s.challenge)
 def c_challenge_trunc(s, r): s.sign_challenge = s.challenge[:-1] if r.random() < 0.5 else s.challenge + b"\x00"
+def c_challenge_b64_alias(s, r):
+    # the expected challenge is printable base64url text; the client data carries its base64url DECODING (or the other way round)
+    import base64
+    if r.random() < 0.5:
+        txt = "".join(r.choice("ABCDEFGHIJKLMNOPQRSTUVWXYZabcdefghijklmnopqrstuvwxyz0123456789-_") for _ in range(43))
+        s.challenge = txt.encode()
+        s.sign_challenge = base64.urlsafe_b64decode(txt + "=")
+    else:
+        s.sign_challenge = authsim.b64u(s.challenge).encode()
+def c_algs_empty(s, r): s.algs = r.choice([[], ()])      # an explicitly empty allowed list allows nothing
 def c_origin_other(s, r): _keep_expected(s); s.origin = r.choice(["https://evil.example", "https://example.com.evil.test"])
 def c_origin_substring(s, r):
     s.exp_origin = "https://example.com:8443"
@@ -46,6 +56,7 @@ def c_unknown_fmt(s, r): s.k["fmt_override"] = r.choice(["bogus", "Packed", "non
 def c_bs_without_be(s, r): s.flags = (s.flags | 0x10) & ~0x08
 
 CEREMONY = {
+    "challenge-base64url-alias": c_challenge_b64_alias, "allowed-algorithms-empty": c_algs_empty,
     "cd-type": c_type, "challenge-other": c_challenge_other, "challenge-trunc": c_challenge_trunc, "origin-other": c_origin_other,
     "origin-substring": c_origin_substring, "origin-list-absent": c_origin_list_absent, "token-binding-status": c_token_binding,
     "rp-id-other": c_rp_other, "up-clear-required": c_up_clear, "uv-clear-required": c_uv_clear, "no-attested-data": c_no_attested,
@@ -177,6 +188,13 @@ def sn_sig_other_key(s, r): s.k["sn_signer"] = regsim.rsa_key("safetynet_other")
 def sn_two_parts(s, r): s.k["sn_jws"] = lambda h, p, sg: (h + "." + p).encode()
 def sn_four_parts(s, r): s.k["sn_jws"] = lambda h, p, sg: (h + "." + p + "." + sg + ".x").encode()
 
+def cred_other_curve_same_xy(s, r):
+    # the credential key in the authenticator data declares another curve than the certified P-256 key, with the same x / y
+    s.kind = "ES256-P256"
+    m = dict(Cred("ES256-P256").cose)
+    m[-1] = r.choice([2, 3])
+    s.k["cose_bytes"] = cbor2.dumps(m)
+
 FORMAT_FAULTS = {
     "packed-self": {
         "alg-disagrees-with-key": self_alg_mismatch, "signed-by-other-key": self_other_key, "signed-other-authdata": signed_other_ad,
@@ -195,7 +213,8 @@ FORMAT_FAULTS = {
         "sig-missing": stmt_drop("sig"), "x5c-missing": stmt_drop("x5c"),
     },
     "tpm": {
-        "ver-not-2.0": set_k(tpm_ver="1.2"), "ver-missing": stmt_drop("ver"), "rsa-exponent-default-vs-3": tpm_e3, "rsa-exponent-mismatch": tpm_e_nonzero_mismatch,
+        "ver-not-2.0": set_k(tpm_ver="1.2"), "ver-missing": stmt_drop("ver"), "ver-float-2.0": set_k(tpm_ver=2.0), "ver-bytes-2.0": set_k(tpm_ver=b"2.0"), "ver-int-2": set_k(tpm_ver=2),
+        "extradata-empty": set_k(tpm_extra_cut=0), "extradata-truncated": set_k(tpm_extra_cut=16), "attested-name-empty": set_k(tpm_name_cut=0), "attested-name-only-alg": set_k(tpm_name_cut=2), "rsa-exponent-default-vs-3": tpm_e3, "rsa-exponent-mismatch": tpm_e_nonzero_mismatch,
         "rsa-modulus-mismatch": tpm_rsa_unique, "ecc-point-mismatch": tpm_ecc_unique, "ecc-curve-mismatch": tpm_ecc_curve, "key-kind-mismatch": tpm_kind_mismatch,
         "magic": set_k(tpm_magic=0xFF544348), "type-not-certify": set_k(tpm_cert_type=0x801A), "type-quote": set_k(tpm_cert_type=0x8018),
         "extradata-other-hash": tpm_extra_hash, "extradata-other-authdata": signed_other_ad, "extradata-other-clientdata": signed_other_cdh,
@@ -208,11 +227,12 @@ FORMAT_FAULTS = {
     },
     "apple": {
         "nonce-other-authdata": signed_other_ad, "nonce-other-clientdata": signed_other_cdh, "nonce-extension-absent": set_k(apple_no_ext=True),
+        "nonce-empty": set_k(apple_nonce_cut=0), "nonce-truncated": set_k(apple_nonce_cut=16), "credential-key-other-curve-same-xy": cred_other_curve_same_xy,
         "certificate-key-differs": apple_leaf_other_key, "nonce-prefix-shorter": set_k(apple_ext_prefix=b"\x30\x23\xa1\x21\x04"), "x5c-missing": stmt_drop("x5c"),
     },
     "android-key": {
         "signed-by-other-key": ak_sig_other_key, "signed-other-authdata": signed_other_ad, "certificate-key-differs": ak_leaf_other_key,
-        "challenge-other": set_k(ak_challenge=hashlib.sha256(b"other").digest()), "allApplications-software": set_k(ak_sw_all=True),
+        "challenge-other": set_k(ak_challenge=hashlib.sha256(b"other").digest()), "challenge-empty": set_k(ak_challenge=b""), "credential-key-other-curve-same-xy": cred_other_curve_same_xy, "allApplications-software": set_k(ak_sw_all=True),
         "allApplications-tee": set_k(ak_tee_all=True), "origin-imported": set_k(ak_origin=2), "origin-absent": set_k(ak_origin=None),
         "purpose-verify": set_k(ak_purpose=(3,)), "purpose-sign-and-verify": set_k(ak_purpose=(2, 3)), "purpose-absent": set_k(ak_purpose=None),
         "origin-only-software-enforced": set_k(ak_origin=None, ak_sw_origin=0), "purpose-only-software-enforced": set_k(ak_purpose=None, ak_sw_purpose=(2,)),
@@ -229,6 +249,10 @@ FORMAT_FAULTS = {
         "ver-missing": stmt_drop("ver"), "response-missing": stmt_drop("response"),
     },
 }
+# entries that make an inner structure MALFORMED (not a well-formed response rejected for a semantic reason): C19 does not demand a
+# library exception for them (observations O3/O4 in DESIGN section 4): an attested Name too short to carry its algorithm id makes the
+# TPM structure parser raise KeyError; a credential key that is no point of its declared curve makes `cryptography` raise ValueError
+MALFORMED_STRUCTURE = {"attested-name-empty", "credential-key-other-curve-same-xy"}
 # faults that only make sense for some credential key families
 NEEDS_FAMILY = {"ecc-point-mismatch": "ec", "ecc-curve-mismatch": "ec", "ecc-curve-unmappable": "ec"}
 # entries known to be accepted by the unchanged implementation (genuine defects, see DESIGN section 4)
@@ -256,6 +280,19 @@ def ch_nobc_root_impostor(s, r): s.k["pki_kw"] = dict(root_bc=False); s.roots_mo
 def ch_nobc_root_bad_sig(s, r): s.k["pki_kw"] = dict(root_bc=False); s.k["leaf_signer"] = regsim.ec_key("unrelated_signer")
 def ch_nobc_root_expired_leaf(s, r): s.k["pki_kw"] = dict(root_bc=False); s.k["leaf_nb"], s.k["leaf_na"] = T0 - 400 * DAY, T0 - 1
 
+def ch_attacker_ca_first(s, r):
+    # x5c = [attacker's own self-signed CA certificate, a genuine chain to the anchor]; statement signed with the attacker's key
+    ak = regsim.ec_key("attacker_ca")
+    cert = regsim.make_cert(regsim.name("Attacker CA"), regsim.name("Attacker CA"), ak.public_key(), ak, ca=True)
+    s.k["x5c_override"] = lambda pki, leaf: [regsim.der(cert)] + pki.chain_der(leaf)
+    s.k["att_signer"] = type("K", (), {"sk": ak, "alg": -7, "sign": staticmethod(lambda msg, scheme=None: ak.sign(msg, ec.ECDSA(hashes.SHA256())))})()
+def ch_pinned_leaf_expired(s, r):
+    s.roots_mode = r.choice(["pin-leaf", "pin-leaf-and-root"]); s.k["leaf_nb"], s.k["leaf_na"] = T0 - 400 * DAY, T0 - 1
+def ch_pinned_selfsigned_leaf_expired(s, r):
+    ch_self_signed_leaf(s, r); s.roots_mode = "pin-leaf"; s.k["leaf_nb"], s.k["leaf_na"] = T0 - 400 * DAY, T0 - 1
+def ch_pinned_leaf_future(s, r):
+    s.roots_mode = "pin-leaf-and-root"; s.k["leaf_nb"], s.k["leaf_na"] = T0 + 60, T0 + 400 * DAY
+
 CHAIN_FAULTS = {
     "legacy-root-without-basic-constraints:corrupted-signature": ch_nobc_root_bad_sig,
     "legacy-root-without-basic-constraints:expired-leaf": ch_nobc_root_expired_leaf,
@@ -263,7 +300,11 @@ CHAIN_FAULTS = {
     "expired-intermediate": ch_expired_inter, "not-yet-valid-intermediate": ch_future_inter, "expired-root": ch_expired_root,
     "not-yet-valid-root": ch_future_root, "corrupted-signature": ch_bad_signature, "missing-intermediate": ch_missing_inter,
     "non-ca-intermediate": ch_non_ca_inter,
+    "attacker-ca-first-genuine-chain-as-intermediates": ch_attacker_ca_first,
+    "pinned-leaf-expired": ch_pinned_leaf_expired, "pinned-leaf-not-yet-valid": ch_pinned_leaf_future,
 }
+# chain faults whose no-anchor (pass-through) variant is not simply "accepted"
+NO_PASSTHROUGH_VARIANT = {"impostor-root-same-name", "attacker-ca-first-genuine-chain-as-intermediates"}
 
 
 def applicable_kinds(fmt):
